@@ -141,7 +141,7 @@ func genC05(seed uint64, withSpec bool) *Scenario {
 					t := true
 					op = Op{Kind: KSpec, Doc: js(GenDeepSpec(r)), COE: &t, OrderSeed: orderSeedFor(r)}
 				}
-				op.FromFile = false
+				op.FromFile, op.ReuseSV = false, false
 				op.SharedMeta = false // a schema object shared between goroutines must not contain unexpanded $ref (outside C05)
 				if op.Kind == KSpecOne && coeRun {
 					op.Kind = KSpec
